@@ -1,5 +1,6 @@
 import Cirbo.Proofs.GenArith
 import Cirbo.Proofs.GenDiv
+import Cirbo.Proofs.GenSqrt
 /-!
 # C09 — Subtraction, comparison and gadget generators are exact
 
@@ -13,7 +14,8 @@ import Cirbo.Proofs.GenDiv
 -- OBLIGATION: c09_pairwise_if_then_else
 -- OBLIGATION: c09_outputs_only_when_asked
 -- OBLIGATION: c09_div_mod
--- PARTIAL: add_div_mod is proved (restoring-division invariant a = Q*2^i*b + rem, rem < b*2^i, through the descending loop; OR-prefixes of the divisor; zero-divisor masking). add_sqrt (floor(sqrt a) on ceil(n/2) bits) is modelled one-to-one (Model/Gen2.lean), compared gate for gate with the code and checked on all operand values by the search on every run; its value theorem is not proved yet (the frame theorem covers it: it is a Prog program). add_equal is proved for width >= 1 (width 0 is outside the stated domain: every other generator rejects it). Fuel-free: none of these generators uses fuel.
+-- OBLIGATION: c09_sqrt
+-- PARTIAL: every clause is proved on the model (add_div_mod: restoring-division invariant a = Q*2^i*b + rem, rem < b*2^i through the descending loop, OR-prefixes of the divisor, zero-divisor masking; add_sqrt: digit-by-digit invariant c = rho*4^j, x = a - rho^2*4^j, a < (rho+1)^2*4^j, no overflow of the trial subtrahend). add_equal is proved for width >= 1 (width 0 is outside the stated domain: every other generator rejects it). What remains by correspondence only: the tie between the model programs and the Python generators (gate for gate on every run). Fuel-free: none of these generators uses fuel. Proofs/GenSqrt.lean uses Mathlib's `ring` tactic (no extra axioms).
 -/
 namespace Cirbo
 
@@ -188,6 +190,20 @@ theorem c09_div_mod {st st' : GSt} {x y q r : List Label} {be : Bool}
   rw [valLE_congr (v := v) (v' := v') (fun l hl => h2 l (hy l (mem_revIf.mp hl)))] at e3
   exact ⟨e1, e2, v', h1, h2, e3, e4⟩
 
+/-- **`add_sqrt`** on arbitrary host gates (any width ≥ 1, either endianness): the result `R`, on
+`⌈n/2⌉` bits, is the integer square root — `R² ≤ a < (R+1)²` -/
+theorem c09_sqrt {st st' : GSt} {x out : List Label} {be : Bool}
+    (h : (addSqrt x be).run st = .ok (out, st')) (hw : WFS st.c)
+    (hx : ∀ l ∈ x, l ∈ st.c.labels) {b v : Label → Bool} (hv : IsValB st.c b v) :
+    out.length = (x.length + 1) / 2 ∧
+    ∃ v', IsValB st'.c b v' ∧ (∀ l ∈ st.c.labels, v' l = v l) ∧
+      valLE v' (revIf out be) * valLE v' (revIf out be) ≤ valLE v (revIf x be) ∧
+      valLE v (revIf x be) < (valLE v' (revIf out be) + 1) * (valLE v' (revIf out be) + 1) := by
+  obtain ⟨v', h1, h2, h3⟩ := run_total h hw hv
+  obtain ⟨e1, e2, e3⟩ := sem_addSqrt h3
+  rw [valLE_congr (v := v) (v' := v') (fun l hl => h2 l (hx l (mem_revIf.mp hl)))] at e2 e3
+  exact ⟨e1, v', h1, h2, e2, e3⟩
+
 #print axioms c09_generators_only_add_fresh_gates
 #print axioms c09_sub_two_numbers
 #print axioms c09_subtract_with_compare
@@ -198,5 +214,6 @@ theorem c09_div_mod {st st' : GSt} {x y q r : List Label} {be : Bool}
 #print axioms c09_pairwise_if_then_else
 #print axioms c09_outputs_only_when_asked
 #print axioms c09_div_mod
+#print axioms c09_sqrt
 
 end Cirbo
